@@ -314,7 +314,7 @@ func TestVerif_C19(t *testing.T) {
 	prop := c19Prop(t, k)
 	k.Regress(t, func(sub string, raw json.RawMessage) error { return verifkit.Decode(raw, prop) })
 	verifkit.Enumerate(k, t, "mask-x-change-x-interface", true, c19Singles, prop)
-	verifkit.Rapid(k, t, "subscribe-notify-drain-end-sequences", k.N(3000, 150000), c19Gen, prop)
+	verifkit.Rapid(k, t, "subscribe-notify-drain-end-sequences", k.N(3000, 1000000), c19Gen, prop)
 }
 
 // TestVerif_C19race runs Subscribe, notify and the end of the watch from
